@@ -79,6 +79,38 @@ def check(tier, seed):
         per.setdefault(key, []).append((j["meta"], (k, ex, out)))
         return False
     res = vm_checks.sweep(h, rep, jobs, "c14", stats, on_result)
+    # the command-line front end (main.c): -m / -s must reach the machine for BOTH -f <file> and -e <source>: for each setting
+    # the interpreter's outcome class (result / 'stack too large' / 'out of memory') is that of the embedding API at the same sizes
+    import buildimpl, subprocess, tempfile
+    info = buildimpl.build("asan")
+    cli_rows = []
+    deep_src = "func rec(a : int) -> int { a <= 0 ? 0 : 1 + rec(a - 1) }\nfunc main() -> int { rec(25) }\n"
+    heap_src = "func mk(n : int, s : string) -> string { n == 0 ? s : mk(n - 1, s + \"ab\") }\nfunc main() -> int { length(mk(40, \"\")) }\n"
+    cases = [(deep_src, dict(s=60, m=5000), "stack too large"), (deep_src, dict(s=2000, m=5000), None), (deep_src, dict(s=120, m=5000), "stack too large"),
+             (heap_src, dict(s=2000, m=60), "out of memory"), (heap_src, dict(s=2000, m=5000), None), (heap_src, dict(s=2000, m=110), "out of memory")]
+    env = dict(os.environ, ASAN_OPTIONS="detect_leaks=0")
+    for src, sz, _ in cases:
+        api = h.run(src=src, args=[], mem=sz["m"], stack=sz["s"], trace=False, timeout=60)
+        aio = vm_corr.impl_outcome(api)
+        acls = "stack too large" if "stack too large" in api["err"] else "out of memory" if "out of memory" in api["err"] else aio["kind"].split()[0]
+        h.cleanup(api)
+        with tempfile.NamedTemporaryFile("w", suffix=".nev", delete=False) as tf:
+            tf.write(src); fn = tf.name
+        for mode, extra in (("-f", [fn]), ("-e", [src])):
+            try:
+                p = subprocess.run([info["never"], "-m", str(sz["m"]), "-s", str(sz["s"]), mode] + extra, stdout=subprocess.PIPE, stderr=subprocess.PIPE, timeout=60, env=env)
+                err = p.stderr.decode("latin1"); rc = p.returncode
+            except subprocess.TimeoutExpired:
+                err, rc = "timeout", -999
+            ccls = "stack too large" if "stack too large" in err else "out of memory" if "out of memory" in err else ("return" if rc >= 0 and "error" not in err else "other")
+            cli_rows.append(dict(mode=mode, sizes=sz, api=acls, cli=ccls, rc=rc))
+            if ccls != acls and viol < 3:
+                viol += 1
+                rep.violation("c14_cli_%s_m%d_s%d" % (mode.strip("-"), sz["m"], sz["s"]), "# never %s with -m %d -s %d: outcome class `%s`, the embedding API with the same sizes gives `%s`: the limits given on the command line do not reach the machine\n# stderr: %s\n%s"
+                              % (mode, sz["m"], sz["s"], ccls, acls, err[-300:].replace("\n", " "), src), True)
+        os.unlink(fn)
+    stats["cli_cases"] = len(cli_rows)
+    stats["cli_classes"] = sorted(set("%s:%s" % (r["mode"], r["cli"]) for r in cli_rows))
     h.close()
     # smaller limits never change the result of a program that fits
     for key, outs in per.items():
